@@ -79,6 +79,9 @@ pub enum OpKind {
     It { kind: IterKind, calls: Vec<bool>, forget: bool },
     Dbg,
     Nop,
+    /// `threads` reader threads run the same script of shared-reference operations concurrently
+    /// on `&LruCache` (C19); for the model this is a no-op
+    Readers { threads: u8, seed: u64 },
 }
 
 #[derive(Clone, Debug, PartialEq, Eq)]
@@ -154,6 +157,7 @@ impl OpKind {
             }
             OpKind::Dbg => "dbg".to_owned(),
             OpKind::Nop => "nop".to_owned(),
+            OpKind::Readers { threads, seed } => format!("readers {} {}", threads, seed),
         }
     }
 
@@ -187,6 +191,7 @@ impl OpKind {
             OpKind::It { .. } => "it",
             OpKind::Dbg => "dbg",
             OpKind::Nop => "nop",
+            OpKind::Readers { .. } => "readers",
         }
     }
 
@@ -194,7 +199,7 @@ impl OpKind {
     pub fn shared_ref(&self) -> bool {
         match self {
             OpKind::Peek(_) | OpKind::PeekE(_) | OpKind::Has(_) | OpKind::PeekLru | OpKind::PeekMru
-            | OpKind::Dbg | OpKind::Nop => true,
+            | OpKind::Dbg | OpKind::Nop | OpKind::Readers { .. } => true,
             OpKind::It { kind, .. } => kind.borrowing(),
             _ => false,
         }
@@ -300,6 +305,7 @@ impl Line {
                     },
                     ["dbg"] => OpKind::Dbg,
                     ["nop"] => OpKind::Nop,
+                    ["readers", t, sd] => OpKind::Readers { threads: t.parse().ok()?, seed: sd.parse().ok()? },
                     _ => return None,
                 };
                 Op::On { c, op }
